@@ -17,12 +17,14 @@ func verifAnyForm(label string) system.Collection {
 	case 0:
 		return system.Collection{}
 	case 13:
-		// a Decimal beyond what a float64 holds (1e400: +Inf as a float) or below it (1e-400: 0 as a float)
-		e := int32(400)
-		if verifrt.NondetBool(label + ".tiny") {
-			e = -400
+		// a Decimal beyond what a float64 holds (+-d e400: +-Inf as a float) or below it (d e-400: 0 as a float); sign and
+		// side are choices of the harness, so that each combination is a witness of its own
+		e := []int32{400, -400}[verifrt.Choose(label+".hugeOrTiny", 2)]
+		m := int64(verifrt.NondetIntRange(label+".hm", 1, 9))
+		if verifrt.Choose(label+".hsign", 2) == 1 {
+			m = -m
 		}
-		return system.Collection{system.Decimal(decimal.New(int64(verifrt.NondetIntRange(label+".hm", -9, 9)), e))}
+		return system.Collection{system.Decimal(decimal.New(m, e))}
 	case 1:
 		return system.Collection{system.Integer(verifrt.NondetInt32(label + ".i"))}
 	case 2:
